@@ -8,4 +8,4 @@ def run(tier, seed):
         arrayhist.run_family(run, 'C11', tier, seed, family)
     run.cov['rule'] = ('Array: every mutating macro-edge leaving a mode-r state of the TLC graph of spec/Array.tla is '
                        'executed with a recursive byte snapshot before/after; paths r-call, SetMode(r+), same call.')
-    return raggedhist.run_check('C11', tier, seed, 'data', run=run)
+    return raggedhist.run_check('C11', tier, seed, 'data+ctx', run=run)
